@@ -24,6 +24,8 @@
 (* A step with op "x" is the wildcard '*' (T.__star__()), op "X" is '**' (the value itself  *)
 (* and all its descendants, breadth first, each container expanded once): the write is broadcast over *)
 (* every match in order; atomicity is only claimed for wildcard-free paths.              *)
+(* flags[a] = "slots": a slotted attribute object (no __dict__) with slots a, b, x.        *)
+(* missing = "sdict": the factory hands out ONE shared dict on every call.                *)
 (* flags[a] \in {"", "wfault", "dfault", "prop"}: the cell's __setitem__/__setattr__    *)
 (* raises, its __delitem__/__delattr__ raises, its class has a read-only property "r".  *)
 (* facfail = k > 0: the missing-factory raises on its k-th call.                         *)
@@ -77,6 +79,7 @@ PySetItem(h, fl, dest, key, v, via) ==
                 ELSE POk([h EXCEPT ![dest.a].items[j] = v], <<WEv(dest.a, "set", key, TRUE, via)>>)
       [] OTHER -> PExc(h, "TypeError", <<>>)        \* tuple, frozenset, set, obj: no item assignment
 
+SlotNames == {VStr("a"), VStr("b"), VStr("x")}       \* __slots__ of a cell flagged "slots"
 \* setattr(dest, name, v)
 PySetAttr(h, fl, dest, name, v, via) ==
   IF name.k # "str" THEN PExc(h, "TypeError", <<>>)
@@ -84,6 +87,7 @@ PySetAttr(h, fl, dest, name, v, via) ==
     LET f == FlagOf(fl, dest) IN
     IF f = "wfault" THEN PExc(h, "RuntimeError", <<WEv(dest.a, "set", name, FALSE, via)>>)
     ELSE IF f = "prop" /\ name = VStr("r") THEN PExc(h, "AttributeError", <<WEv(dest.a, "set", name, FALSE, via)>>)
+    ELSE IF f = "slots" /\ name \notin SlotNames THEN PExc(h, "AttributeError", <<WEv(dest.a, "set", name, FALSE, via)>>)
     ELSE POk([h EXCEPT ![dest.a].items = SetKey(@, name, v)], <<WEv(dest.a, "set", name, TRUE, via)>>)
   ELSE PExc(h, "AttributeError", <<>>)              \* builtin values have no settable attributes
 
@@ -205,19 +209,23 @@ ValBuild(h, root, vs) == ValBuildM(h, root, vs, FALSE)
 \* lenient (the statement fixes the heap but not whether an error is raised) / heap / v
 Expect(ok, err, lenient, h, v) == [ok |-> ok, err |-> err, lenient |-> lenient, heap |-> h, v |-> v]
 
+FacCls(m) == IF m = "sdict" THEN "dict" ELSE m
+Shared(c) == c.missing = "sdict"
+NFresh(c, d) == IF Shared(c) THEN 1 ELSE d          \* distinct containers d factory calls produce
+TailAddr(c, NB, j) == IF Shared(c) THEN NB + 1 ELSE NB + j
 \* the tail of fresh containers for the absent segments b .. n-1 (b = first absent parent
 \* step): cell N0+j is made by the j-th factory call and receives exactly one entry,
 \*   tmp_d[step_n] = val; tmp_{d-1}[step_{n-1}] = tmp_d; ... ; dest[step_b] = tmp_1
 RECURSIVE TailFill(_, _, _, _, _)
 TailFill(c, h, b, j, v) ==        \* fill cell NB+j .. NB+d innermost first; returns POk/PExc
   LET d == NSteps(c) - b
-      NB == Len(h) - d               \* the cells before the fresh tail (target + rebuilt value)
+      NB == Len(h) - NFresh(c, d)    \* the cells before the fresh tail (target + rebuilt value)
   IN
   IF j > d THEN POk(h, <<>>)
   ELSE LET inner == TailFill(c, h, b, j + 1, v) IN
        IF ~inner.ok THEN inner
-       ELSE StoreOp(inner.heap, c.flags, VRef(NB + j), c.steps[b + j],
-                    IF j = d THEN v ELSE VRef(NB + j + 1))
+       ELSE StoreOp(inner.heap, c.flags, VRef(TailAddr(c, NB, j)), c.steps[b + j],
+                    IF j = d THEN v ELSE VRef(TailAddr(c, NB, j + 1)))
 
 \* ---- wildcards: the parents a path with '*' steps reaches, in order -------------------
 IsWild(st) == st.op \in {"x", "X"}
@@ -275,7 +283,7 @@ RefStarAssign(c) ==
            d == FirstWildFrom(c.steps, b) - b
            NB == Len(v.heap)
            dest == PathEval(c.heap0, c.root, SubSeq(c.steps, 1, b - 1)).v
-           fresh == v.heap \o [j \in 1..d |-> Cell(c.missing, <<>>)]
+           fresh == v.heap \o [j \in 1..d |-> Cell(FacCls(c.missing), <<>>)]
            links == LinkTail(c, fresh, b, 1, d, NB)
            fan2 == Fan(fresh, VRef(NB + d), ParentSteps(c), b + d)
            filled == FoldStore(c, links.heap, fan2.dests, 1, v.v)
@@ -300,7 +308,7 @@ RefPlainAssign(c) ==
      ELSE LET b == par.idx + 1                   \* first absent parent step (1-based)
               d == n - b                          \* absent segments = factory calls
               dest == PathEval(c.heap0, c.root, SubSeq(c.steps, 1, b - 1)).v
-              fresh == v.heap \o [j \in 1..d |-> Cell(c.missing, <<>>)]
+              fresh == v.heap \o [j \in 1..NFresh(c, d) |-> Cell(FacCls(c.missing), <<>>)]
               tail == TailFill(c, fresh, b, 1, v.v)
           IN IF c.facfail \in 1..d \/ ~tail.ok THEN failed
              ELSE LET r == StoreOp(tail.heap, c.flags, dest, c.steps[b], VRef(Len(v.heap) + 1)) IN
@@ -502,8 +510,9 @@ DoFactory(s) ==
       top == s.stk[Len(s.stk)]
       s1 == [s EXCEPT !.nfac = j, !.log = Append(@, FEv(j))]
   IN IF c.facfail = j THEN Finish(s1, FALSE, "RuntimeError")
-     ELSE LET new == Len(s.heap) + 1
-              h1 == Append(s.heap, Cell(c.missing, <<>>))
+     ELSE LET again == Shared(c) /\ Len(s.stk) > 1           \* the factory returns the container it made before
+              new == IF again THEN s.stk[2].tgt.a ELSE Len(s.heap) + 1
+              h1 == IF again THEN s.heap ELSE Append(s.heap, Cell(FacCls(c.missing), <<>>))
               \* mutant: the new container is attached to the existing structure at once
               early == IF Mutant = "attach_first" /\ Len(s.stk) = 1
                        THEN StoreOp(h1, c.flags, s.cur, c.steps[top.brk], VRef(new)) ELSE POk(h1, <<>>)
@@ -597,7 +606,8 @@ Outcome == pc = "done" => Conforms(case, Ref(case), out.ok, out.mech, out.v, hea
 \* existing intermediate values are never replaced when segments are created
 NeverReplaced == pc = "done" /\ out.ok /\ case.kind = "assign" /\ nfac > 0 => KeepsEntries(case, heap)
 \* reading the path afterwards yields the value (targets without cycles through the path)
-ReadBack == pc = "done" /\ out.ok /\ case.kind = "assign" /\ Plain =>
+\* (a factory handing out one shared container makes the created tail cyclic: excluded like cycles)
+ReadBack == pc = "done" /\ out.ok /\ case.kind = "assign" /\ Plain /\ ~Shared(case) =>
               LET r == PathEval(heap, case.root, case.steps)
                   v == ValBuild(case.heap0, case.root, case.val)
               IN r.ok /\ r.v = v.v
